@@ -311,7 +311,7 @@ def flat_cache_key(ctx, rule="DEP-cache-key"):
 # ====================================================================== C07
 
 
-def eval_handle_modular_vmap(ev, ret, batched, size, kind, nconst):
+def eval_handle_modular_vmap(ev, ret, batched, size, kind, nconst, site_shape=(2,)):
     """Value of VmapBatchHandler._handle_modular_vmap on model operands (dummy, <nconst keyless constants>, leaf0, leaf1) flattened from the
     site's own call f(leaf0, leaf1) / f(leaf0, kw=leaf1): (returned value, static_dim_length calls, re-bound sampler calls)."""
     from ..absint import Model, Opq, TreeDef
@@ -329,7 +329,7 @@ def eval_handle_modular_vmap(ev, ret, batched, size, kind, nconst):
         return 3 if batched else None
     m.funcs[PJ + "static_dim_length"] = sdl
     m.bind(("attr", SELF, "_compute_outer_batch_dim"), lambda n, ax: () if n is not None else ((ax,) if ax else ()))
-    m.bind(("attr", ("attr", SELF, "config"), "sample_shape"), (2,))
+    m.bind(("attr", ("attr", SELF, "config"), "sample_shape"), tuple(site_shape))
     m.bind(("attr", ("attr", SELF, "config"), "with_sample_shape"), lambda shp: Opq("config-with-shape", tuple(shp)))
     m.funcs["jax.tree_util.tree_unflatten"] = lambda td, leaves: td.unflatten(leaves) if isinstance(td, TreeDef) else Opq("unflatten", td, tuple(leaves))
     rebound = []
@@ -358,16 +358,22 @@ def vmap_lane_randomness(ctx, rule="SHAPE-lanes"):
     ctx.need(len(pn) == 2, f"{dotted}: expected (n, axis_size) parameters")
     for has_n in (True, False):
         for size in (True, False):
-            m = Model()
-            m.bind(("param", pn[0]), 3 if has_n else None)
-            m.bind(("param", pn[1]), 5 if size else None)
-            try:
-                got = m.ev(s.ret)
-            except Unknown as e:
-                raise AnalysisError(f"{dotted}: cannot evaluate [{has_n}, {size}]: {e}")
-            want = () if has_n or not size else (5,)
-            if got != want:
-                ck.fail(f"outer batch dim [args batched={has_n}, axis_size given={size}]", f"found {got!r}, expected {want!r}")
+            # the site's own sample shape is irrelevant to the decision - also when it happens to start with this vmap's axis size (an inner
+            # vmap / repeat of the same size, or a user sample_shape=(B, ...) under a vmap of size B)
+            for site_shape in ((2,), (5,), (5, 2), ()):
+                m = Model()
+                m.bind(("param", pn[0]), 3 if has_n else None)
+                m.bind(("param", pn[1]), 5 if size else None)
+                m.bind(("attr", ("attr", SELF, "config"), "sample_shape"), site_shape)
+                try:
+                    got = m.ev(s.ret)
+                except Unknown as e:
+                    raise AnalysisError(f"{dotted}: cannot evaluate [{has_n}, {size}, {site_shape}]: {e}")
+                want = () if has_n or not size else (5,)
+                if got != want:
+                    ck.fail(f"outer batch dim [args batched={has_n}, axis_size given={size}]", f"with site sample_shape {site_shape!r}: found {got!r}, expected {want!r}" +
+                            (": a site already vectorised by an inner vmap of the same size gets no new lane axis, so one draw is broadcast to every outer lane" if site_shape[:1] == (5,) else ""))
+                    break
     ck.done()
     dotted = PJ + "VmapBatchHandler._handle_modular_vmap"
     s = summarize(ctx, ev, dotted)
@@ -377,10 +383,11 @@ def vmap_lane_randomness(ctx, rule="SHAPE-lanes"):
     from ..absint import Model, Opq, Unknown, TreeDef
     import itertools
     none_bad = False
-    for batched, size, kind, nconst in itertools.product((True, False), (True, False), ("args", "kwargs", "args_none"), (0, 1)):
+    for batched, size, kind, nconst, site_shape in [x + ((2,),) for x in itertools.product((True, False), (True, False), ("args", "kwargs", "args_none"), (0, 1))] + \
+            [(b_, s_, "args", 0, (5,)) for b_ in (True, False) for s_ in (True, False)]:
         consts = ("keyless-const",) * nconst
         try:
-            got, seen_sdl, rebound = eval_handle_modular_vmap(ev, s.ret, batched, size, kind, nconst)
+            got, seen_sdl, rebound = eval_handle_modular_vmap(ev, s.ret, batched, size, kind, nconst, site_shape)
         except Unknown as e:
             raise AnalysisError(f"{dotted}: cannot evaluate [batched={batched}, axis_size={size}, {kind}, {nconst} consts]: {e}")
         when = f"[operands batched={batched}, axis_size given={size}, site called with {'keyword' if kind == 'kwargs' else ('positional parameters after a None placeholder' if kind == 'args_none' else 'positional')} parameters, {nconst} closed-over constant(s)]"
@@ -394,8 +401,8 @@ def vmap_lane_randomness(ctx, rule="SHAPE-lanes"):
             ck.fail("re-bound with sample_shape = outer batch dim + site sample_shape on the dummy-stripped operands", f"{when} {len(rebound)} re-binds; outvals {got[0]!r}")
             continue
         cfg, a_, k_ = rebound[0]
-        if cfg != Opq("config-with-shape", outer + (2,)):
-            ck.fail("re-bound with sample_shape = outer batch dim + site sample_shape on the dummy-stripped operands", f"{when} new config {cfg!r}; expected sample_shape {outer + (2,)!r}")
+        if cfg != Opq("config-with-shape", outer + tuple(site_shape)):
+            ck.fail("re-bound with sample_shape = outer batch dim + site sample_shape on the dummy-stripped operands", f"{when} site sample_shape {site_shape!r}: new config {cfg!r}; expected sample_shape {outer + tuple(site_shape)!r}")
         want_a, want_k = {"args": (("leaf0", "leaf1"), {}), "kwargs": (("leaf0",), {"kw": "leaf1"}), "args_none": ((None, "leaf0", "leaf1"), {})}[kind]
         if (tuple(a_), dict(k_)) != (want_a, want_k) and kind == "args_none":
             none_bad = True
